@@ -102,7 +102,7 @@ def unambiguous(shape, v):
         return all(unambiguous(shape[1], x) for x in v.values())
     if k == "tuple" and isinstance(v, list) and len(v) == len(shape) - 1:
         return all(unambiguous(t, x) for t, x in zip(shape[1:], v))
-    if k == "dc" and isinstance(v, dict):
+    if k in ("dc", "td") and isinstance(v, dict):
         f = {x[0]: x[1] for x in shape[2]}
         return all(n in f and unambiguous(f[n], x) for n, x in v.items())
     if k == "cls":
